@@ -247,6 +247,9 @@ class Question(object):
 
             try:
                 return self._validator(interviewer())
+            except RuntimeError:
+                # The input was exhausted: asking again would never end
+                raise
             except Exception as e:
                 error = e
 
